@@ -141,6 +141,57 @@ def handlerUpdate (date : Str) (dirOps fileOps : List Target) (t : Tree) : Tree 
   let t1 := updateDirGitignores r0 date dirs t
   updateFileGitignores (gitRules t1) date files t1
 
+/-! ## the commands as transitions of (XvcPath store, workspace)
+
+  Between two commands the user may do anything to the workspace (delete a `.gitignore`, delete a
+  directory and regenerate its files, remove single lines, drop a whitelisting rule): the ignore state
+  and the store get out of step.  The store is therefore an explicit component of the state, so that
+  "the `.gitignore` tail of `xvc file track` does not look at the store" is a statement about the model
+  and not an artefact of leaving the store out. -/
+
+/-- the part of the repository the `.gitignore` maintenance could look at: the recorded file paths
+    (`XvcStore<XvcPath>` restricted to `XvcFileType::File`) and the workspace -/
+structure Repo where
+  recorded : List Target
+  tree : Tree
+
+/-- `cmd_track` (file/src/track/mod.rs).  `update_store_records(xvc_path_diff, add_new = true)` records
+    the targets that are new to the store (`Diff::RecordMissing`); `dir_targets` go to
+    `update_dir_gitignores`, the rules are reloaded, and `file_targets` — **all** targets of type
+    `File`, recorded before or not — go to `update_file_gitignores`.  Unless `--no-commit` is given,
+    `carry_in` then moves the targets whose content digest is new or different to the cache and
+    `recheck_from_cache` reports each of them to the ignore handler: `carried` (which files changed is
+    outside this model, so it is a parameter; `[]` for `--no-commit` and for unchanged files). -/
+def trackCmd (date : Str) (dirs files carried : List Target) (r : Repo) : Repo :=
+  { recorded := r.recorded ++ dedup (files.filter (· ∉ r.recorded)),
+    tree := handlerUpdate date [] carried (trackUpdate date dirs files r.tree) }
+
+/-- `cmd_recheck`, `cmd_carry_in`, `cmd_copy`, `cmd_bring`: the files that are materialised
+    (`recheck_from_cache`: absent from the workspace, `--force`, changed content for carry-in, copy
+    destinations) and the parent directories that had to be created are reported to the ignore
+    handler; `newPaths` = the destinations `cmd_copy` records -/
+def materialiseCmd (date : Str) (dirOps fileOps newPaths : List Target) (r : Repo) : Repo :=
+  { recorded := r.recorded ++ dedup (newPaths.filter (· ∉ r.recorded)),
+    tree := handlerUpdate date dirOps fileOps r.tree }
+
+/-- `cmd_move` of files renamed in the workspace: the entity keeps its record, the path changes -/
+def moveCmd (date : Str) (srcs dsts : List Target) (r : Repo) : Repo :=
+  { recorded := r.recorded.filter (· ∉ srcs) ++ dsts,
+    tree := moveUpdate date dsts r.tree }
+
+/-- one step of a history: anything the user does to the workspace, or a command -/
+inductive Step where
+  | user (edit : Tree → Tree)
+  | track (date : Str) (dirs files carried : List Target)
+  | materialise (date : Str) (dirOps fileOps newPaths : List Target)
+  | move (date : Str) (srcs dsts : List Target)
+
+def Step.run : Step → Repo → Repo
+  | .user edit, r => { r with tree := edit r.tree }
+  | .track date dirs files carried, r => trackCmd date dirs files carried r
+  | .materialise date d f n, r => materialiseCmd date d f n r
+  | .move date s d, r => moveCmd date s d r
+
 /-! ## git's reading -/
 
 /-- one pattern as git keeps it after `parse_path_pattern` -/
